@@ -179,7 +179,9 @@ def sentinel(w):
             if setup(rl, w["setup"]):
                 return []
             v, _, _, _ = judge_query(rl, w["sql"], [tuple(x) for x in (w.get("order") or [])])
-            return [(v["signature"], v["what"])] if isinstance(v, dict) else []
+            if isinstance(v, dict):
+                return [(w.get("fixed_signature") or v["signature"], v["what"])]
+            return []
         finally:
             rl.close()
     if "setup" in w:
